@@ -236,7 +236,7 @@ func runC08(c *Ctx) {
 			Bound: bound,
 			Cfg:   vrt.Config{Horizon: int64(600 * time.Second)},
 			Body: func() {
-				rcExecuteInto(&rcCfg{Reqs: reqs, Faults: faults, KeepSession: cf.keep, AlwaysResub: cf.always, Clean: cf.clean}, &r)
+				rcExecuteInto(&rcCfg{Reqs: reqs, Faults: faults, KeepSession: cf.keep, AlwaysResub: cf.always, Clean: cf.clean, Manual: strings.HasPrefix(name, "manual.")}, &r)
 				c08Oracle(r, cfgName)
 			},
 			Observe: func() uint64 { return r.net.TraceHash() ^ vrt.HashString(r.broker.SubsString()) },
@@ -279,6 +279,12 @@ func runC08(c *Ctx) {
 			}
 			for _, cf := range []conf{{false, false, false}, {true, true, false}} {
 				run("N2.F2.focus", reqs, cf, vrt.Budget{F: 2})
+			}
+			// the same with an application-owned redial loop around a bare RetryClient
+			run("manual.N2.F2.focus", reqs, conf{false, false, false}, vrt.Budget{F: 2})
+			if c.Thorough() {
+				run("manual.N2.F2.focus", reqs, conf{true, true, false}, vrt.Budget{F: 2})
+				run("manual.N2.F2.focus", reqs, conf{true, false, false}, vrt.Budget{F: 2})
 			}
 		}
 	}
